@@ -25,7 +25,14 @@ func sortedPairsString(pairs []Pair) string {
 
 	sort.Slice(
 		pairStrs,
-		func(i, j int) bool { return pairStrs[i].k < pairStrs[j].k },
+		// NOTE: keys that are printed alike (floats differing beyond the 6th decimal)
+		// are ordered by their values, otherwise the output changes from run to run
+		func(i, j int) bool {
+			if pairStrs[i].k != pairStrs[j].k {
+				return pairStrs[i].k < pairStrs[j].k
+			}
+			return pairStrs[i].v < pairStrs[j].v
+		},
 	)
 
 	sortedStrs := []string{}
@@ -50,7 +57,12 @@ func sortedPairsRepr(pairs []Pair) string {
 
 	sort.Slice(
 		pairStrs,
-		func(i, j int) bool { return pairStrs[i].k < pairStrs[j].k },
+		func(i, j int) bool {
+			if pairStrs[i].k != pairStrs[j].k {
+				return pairStrs[i].k < pairStrs[j].k
+			}
+			return pairStrs[i].v < pairStrs[j].v
+		},
 	)
 
 	sortedStrs := []string{}
